@@ -90,6 +90,17 @@ for asc in (True, False):
             ok = ok and g.shape == (tt, fchans) and np.array_equal(pd, filedata[:tt, i * s:i * s + fchans])
         R.check('split_fil/files-on-disk-are-this-call-s-pieces', c, ok, len(fns), want)
 
+# the same path split again after the file behind it changed (another geometry): nothing of the earlier header may be remembered
+pth = os.path.join(R.tmp, 'reused.fil')
+for (nch, T, asc) in ((64, 8, False), (32, 6, True), (48, 4, False)):
+    fr = stg.Frame(fchans=nch, tchans=T, df=2.79, dt=1.0, fch1=6.0e9, ascending=asc, seed=1, t_start=0)
+    fr.data[:] = np.arange(T * nch, dtype=float).reshape(T, nch)
+    fr.save_fil(pth)
+    ps = R.guard('split_waterfall_generator/reused-path/no-exception', dict(nchans=nch, T=T, ascending=asc), lambda: [stg.Frame(w) for w in split_utils.split_waterfall_generator(pth, 16)])
+    if ps is not None:
+        R.check('split_waterfall_generator/reused-path-follows-the-current-file', dict(nchans=nch, T=T, ascending=asc), len(ps) == nch // 16 and all(p_.shape == (T, 16) for p_ in ps),
+                [list(p_.shape) for p_ in ps], [T, 16])
+
 # arrays: shifts equal to the tile sizes -> partition in row-major order; trimming keeps exactly the full-size tiles
 shapes = [(1, 1), (5, 7), (4, 6), (12, 14), (3, 1), (1, 9)] if R.tier != 'thorough' else [(h, w) for h in range(1, 8) for w in range(1, 9)] + [(12, 14)]
 for (H, W) in shapes:
